@@ -1,6 +1,7 @@
 package main
 
 import (
+	"runtime/debug"
 	"encoding/json"
 	"fmt"
 	"os"
@@ -105,12 +106,17 @@ func check(args []string) (code int) {
 			w.Close()
 		}
 	}()
+	failRule := "loader"
 	failProp := func(id, msg string) {
-		p := filepath.Join(vd, "evidence", "violations", id+"-0.json")
+		od := vd
+		if o := os.Getenv("VERIF_OUT"); o != "" {
+			od = o
+		}
+		p := filepath.Join(od, "evidence", "violations", id+"-0.json")
 		os.MkdirAll(filepath.Dir(p), 0o755)
 		os.WriteFile(p, []byte(fmt.Sprintf("{\"property\":%q,\"status\":\"undecided\",\"detail\":%q}\n", id, msg)), 0o644)
 		fmt.Println(msg)
-		fmt.Printf("VIOLATION property=%s replay=%s kind=undecided rule=loader\n", id, p)
+		fmt.Printf("VIOLATION property=%s replay=%s kind=undecided rule=%s\n", id, p, failRule)
 	}
 	for _, a := range archs {
 		w, err := load.Load(load.RepoDir(), a)
@@ -153,7 +159,12 @@ func check(args []string) (code int) {
 				defer func() {
 					if r := recover(); r != nil {
 						panicked = true
+						failRule = "checker-panic"
+						if os.Getenv("VERIF_PANIC") != "" {
+							fmt.Println(string(debug.Stack()))
+						}
 						failProp(id, fmt.Sprintf("checker panic in %s: %v", id, r))
+						failRule = "loader"
 					}
 				}()
 				pack.Run(c)
